@@ -276,7 +276,8 @@ def check(ctx):
     # (the scaling by |signal*scale| and the partition by the reward's sign are decided by the decision tree of clause h)
     ctx.assume("spike tensors are {0,1}-valued; batch reductions behave as documented")
     # ---------------- (g) the trace kernels behind the trace monitors (shared with C07.a)
-    ctx.import_clauses("C07", {"C07.a"}, "C08.g", minimum=8)
+    ctx.import_clauses("C07", {"C07.a", "C07.b", "C07.t"}, "C08.g", minimum=8,
+                       pick=lambda s: not s.startswith(("FoldReducer", "RecordReducer", "EventReducer", "PassthroughReducer", "EMAReducer", "CAReducer")))
     # ---------------- (h) reward modulation block = the documented rule, as a decision tree
     from .. import reward_tail
     reward_tail.check(ctx, "C08.h", only=("MSTDP", "MSTDPET"))
